@@ -152,8 +152,9 @@ def check_one(src, name, v, fcp=None, skip_signed_min=False, props=("C01", "C02"
     return None
 
 
-def permuted_twin(src):
-    """the same schema with the fields of every struct written in reverse order (ids kept)"""
+def permuted_twin(src, how="reverse"):
+    """the same schema with the fields of every struct written in another order (ids kept): reversed, or rotated by one
+    (a 3-cycle for three fields: the one permutation class that differs from its inverse)"""
     import re
     def rev(m):
         fields = [f.strip() for f in m.group(2).split(",") if f.strip()]
@@ -164,7 +165,8 @@ def permuted_twin(src):
             if cur.count("[") == cur.count("]"):
                 merged.append(cur)
                 cur = ""
-        return m.group(1) + " " + ", ".join(reversed(merged)) + ", }"
+        perm = list(reversed(merged)) if how == "reverse" else merged[1:] + merged[:1]
+        return m.group(1) + " " + ", ".join(perm) + ", }"
     return re.sub(r"(struct \w+ \{)([^}]*)\}", rev, src)
 
 
@@ -178,16 +180,32 @@ def search(pid, seed, tier, skip):
         for v in struct_values(fcp, name, rnd):
             n += 1
             if pid == "C15":
-                tw = permuted_twin(src)
-                a = list(serde.encode(fcp, name, v))
-                b = list(serde.encode(parse(tw), name, v))
-                if a != b:
-                    return {"failure": {"schema": src, "twin": tw, "struct": name, "value": repr(v),
-                                        "check": "declaration-permuted twin encodes to different bytes", "expected": a, "observed": b}}
+                for how in ("reverse", "rotate"):
+                    tw = permuted_twin(src, how)
+                    ftw = parse(tw)
+                    a = list(serde.encode(fcp, name, v))
+                    b = list(serde.encode(ftw, name, v))
+                    if a != b:
+                        return {"failure": {"schema": src, "twin": tw, "struct": name, "value": repr(v),
+                                            "check": "declaration-permuted twin encodes to different bytes", "expected": a, "observed": b}}
+                    try:
+                        da, db = serde.decode(fcp, name, bytes(a)), serde.decode(ftw, name, bytes(a))
+                    except Exception as e:
+                        da, db = "decode raises", repr(e)
+                    if da != db:
+                        return {"failure": {"schema": src, "twin": tw, "struct": name, "value": repr(v), "decode": True,
+                                            "check": "declaration-permuted twin decodes the same bytes to a different value",
+                                            "expected": repr(da), "observed": repr(db)}}
                 continue
             f = check_one(src, name, v, fcp, skip_min, props)
             if f:
                 return {"failure": f, "tried": n}
+    if pid == "C15":
+        from native import layout
+        r = layout.search(pid, seed, tier, skip)
+        if r.get("failure"):
+            r["failure"]["oracle"] = "layout"
+            return r
     return {"failure": None, "tried": n, "note": f"{n} boundary inputs over {len(schemas())} schemas agree with the spec"}
 
 
@@ -203,10 +221,18 @@ def witness(kid):
 
 
 def replay(rec):
-    v = eval(rec["value"], {"inf": float("inf"), "nan": float("nan")})
+    v = eval(rec["value"], {"inf": float("inf"), "nan": float("nan")}) if "value" in rec else None
+    if rec.get("oracle") == "layout":
+        from native import layout
+        return {"fails": layout.check(rec["schema"], rec["unroll"]) is not None}
     if "twin" in rec:
         a = list(serde.encode(parse(rec["schema"]), rec["struct"], v))
         b = list(serde.encode(parse(rec["twin"]), rec["struct"], v))
+        if rec.get("decode"):
+            try:
+                return {"fails": serde.decode(parse(rec["schema"]), rec["struct"], bytes(a)) != serde.decode(parse(rec["twin"]), rec["struct"], bytes(a))}
+            except Exception as e:
+                return {"fails": True, "raises": repr(e)}
         return {"fails": a != b, "a": a, "b": b}
     f = check_one(rec["schema"], rec["struct"], v)
     return {"fails": f is not None, "detail": f}
